@@ -354,14 +354,18 @@ def with_driver(fn):
     with _step_loop() as loop:
         def drive():
             loop.manual = True
-            drv = ProtoDriver(loop)
+            drv = None
             try:
+                drv = ProtoDriver(loop)
                 box["value"] = fn(drv)
             except BaseException as exc:   # noqa: BLE001 - re-raised outside the loop
                 box["error"] = exc
             finally:
                 try:
-                    drv.cleanup()
+                    if drv is not None:
+                        drv.cleanup()
+                except BaseException as exc:   # noqa: BLE001
+                    box.setdefault("error", exc)
                 finally:
                     loop.manual = False
                     loop.stop()
